@@ -23,6 +23,7 @@ package c05
 import (
 	"context"
 	"fmt"
+	"os"
 	"sort"
 	"strings"
 	"sync"
@@ -199,6 +200,9 @@ type op struct {
 	Tpl     int    `json:"tpl"`
 	Effects []int  `json:"effects"`
 	Fault   fault  `json:"fault"`
+	// Loc, when set, makes this an operation of the evaluator-location family (loc.go): the program is
+	// locCtxs[Ctx] around locNests[Nest] instead of a template around effects.
+	Loc *locSpec `json:"loc,omitempty"`
 }
 
 func (o op) forms() []string {
@@ -209,7 +213,13 @@ func (o op) forms() []string {
 	return es
 }
 
-func (o op) src() string { return templates[o.Tpl].render(o.forms()) }
+func (o op) src() string {
+	if o.Loc != nil {
+		src, _ := o.Loc.render()
+		return src
+	}
+	return templates[o.Tpl].render(o.forms())
+}
 
 // ---------------------------------------------------------------------------
 
@@ -219,6 +229,13 @@ type rig struct {
 	failAt    int
 	failKind  string
 	confirmed int // snaps that returned normally
+
+	// evaluator-location family (loc.go)
+	files    map[string]string // what the in-memory source library serves
+	libLog   []string          // source contexts the library was asked under
+	whereLog []string          // frame sources seen by the where / where-op / where-mac host entries
+	afterOp  func()            // runs right after the entry point returned, before anything else is evaluated
+	snap     lisp.LBuiltinDef
 }
 
 func newRig() *rig {
@@ -234,6 +251,7 @@ func newRig() *rig {
 		g.confirmed++
 		return lisp.Nil()
 	})
+	g.snap = snap
 	snap1 := el.Fn("snap1", []string{"x"}, func(env *lisp.LEnv, args *lisp.LVal) *lisp.LVal {
 		return snap.Eval(env, lisp.SExpr(nil))
 	})
@@ -243,7 +261,7 @@ func newRig() *rig {
 	nx := el.Fn("nx", nil, func(env *lisp.LEnv, args *lisp.LVal) *lisp.LVal {
 		return lisp.Int(g.snapCalls + 1)
 	})
-	g.env = el.MustEnv(el.Opts{Builtins: []lisp.LBuiltinDef{snap, snap1, snaph, nx}})
+	g.env = el.MustEnv(el.Opts{Builtins: []lisp.LBuiltinDef{snap, snap1, snaph, nx}, Configs: []lisp.Config{lisp.WithLibrary(&memLib{g: g})}})
 	// the same host code registered as a SPECIAL OPERATOR and as a Go MACRO (embedders may add both): a panic in
 	// the operator's own Go body unwinds through specialOpCall / macroCall, not through a function call
 	g.env.AddSpecialOps(true, el.Fn("snap-op", nil, func(env *lisp.LEnv, args *lisp.LVal) *lisp.LVal { return snap.Eval(env, lisp.SExpr(nil)) }))
@@ -295,6 +313,14 @@ func (g *rig) snapshot() string {
 }
 
 func (g *rig) invariants(pkgBefore string, wantPkgRestored bool) string {
+	if bad := g.pureInvariants(pkgBefore, wantPkgRestored); bad != "" {
+		return bad
+	}
+	return g.entryDepthInvariant()
+}
+
+// pureInvariants reads the runtime through the Go API only: nothing is evaluated.
+func (g *rig) pureInvariants(pkgBefore string, wantPkgRestored bool) string {
 	rt := g.env.Runtime
 	var bad []string
 	if n := len(rt.Stack.Frames); n != 0 {
@@ -312,6 +338,12 @@ func (g *rig) invariants(pkgBefore string, wantPkgRestored bool) string {
 	if g.env.Context() != context.Background() {
 		bad = append(bad, "evaluation context not restored")
 	}
+	return strings.Join(bad, "; ")
+}
+
+func (g *rig) entryDepthInvariant() string {
+	rt := g.env.Runtime
+	var bad []string
 	// entry-point depth balanced: two trivial top-level evaluations in a row must count the same number of steps
 	// (a depth left raised means the step counter is never reset again: the second count is the sum)
 	if len(bad) == 0 {
@@ -371,6 +403,10 @@ func (g *rig) apply(o op) opResult {
 		}
 	}
 	src := o.src()
+	g.files = nil
+	if o.Loc != nil {
+		_, g.files = o.Loc.render()
+	}
 	var fn *lisp.LVal
 	if o.Entry == "FunCall" {
 		lisp.WithMaxSteps(0)(g.env.LEnv)
@@ -407,6 +443,12 @@ func (g *rig) apply(o op) opResult {
 		if err != nil || len(exprs) != 1 {
 			panic("harness: read")
 		}
+		if o.Loc != nil {
+			// a program that is one form is given to Eval as that form
+			if one, err := g.env.Runtime.Reader.Read("op", strings.NewReader(src)); err == nil && len(one) == 1 {
+				exprs = one
+			}
+		}
 		if ctx != nil {
 			v = g.env.EvalContext(ctx, exprs[0])
 		} else {
@@ -419,6 +461,13 @@ func (g *rig) apply(o op) opResult {
 		} else {
 			v = g.env.FunCall(fn, lisp.QExpr(nil))
 		}
+	case "LoadFile":
+		// the program is the file main.lisp of the in-memory source library
+		if ctx != nil {
+			v = g.env.LoadFileContext(ctx, "main.lisp")
+		} else {
+			v = g.env.LoadFile("main.lisp")
+		}
 	default:
 		panic("harness: entry " + o.Entry)
 	}
@@ -427,9 +476,15 @@ func (g *rig) apply(o op) opResult {
 	}
 	res := opResult{out: el.Observe(v, g.env.Err.String()), steps: rt.Steps(), maxFrames: maxFrames, confirmed: g.confirmed}
 	_ = isLoad
-	res.inv = g.invariants(pkgBefore, true) // no template switches package at its own top level, so every entry point must leave it unchanged
+	res.inv = g.pureInvariants(pkgBefore, true) // no template switches package at its own top level, so every entry point must leave it unchanged
 	rt.Stack.MaxHeightPhysical = std.MaxHeightPhysical
 	lisp.WithMaxSteps(0)(g.env.LEnv)
+	if g.afterOp != nil {
+		g.afterOp() // the limits of the operation are lifted: what runs here is a LATER evaluation
+	}
+	if res.inv == "" {
+		res.inv = g.entryDepthInvariant()
+	}
 	return res
 }
 
@@ -587,6 +642,9 @@ func replay(v core.Violation) (bool, string) {
 	if err != nil {
 		return false, err.Error()
 	}
+	if k.Op.Loc != nil {
+		return locReplay(k)
+	}
 	rc := &refCache{m: map[string]string{}}
 	_, res, bad, _ := step(k.History, k.Op, rc)
 	var sb strings.Builder
@@ -704,9 +762,15 @@ func run(r *core.Run) {
 	r.Bound("history_depth", depth)
 	r.Rule("explicit-state BFS over histories of top-level operations on one runtime. Operation = entry point x program template (24: the host code registered as a special operator and as a Go macro, a user-defined function or macro as the top-level form (with nested loads), after nested loads of empty sources, top level, lambda call, the host builtin reached through funcall / apply / as a map callback, a multi-form function defined in another package calling thunks (also swallowed and followed by more effects), let/labels, handler-bind body, inside a handler, ignore-errors, nested load-string with in-package, macro expansion time, tail loop, dotimes, map callback, foldl callback) x effect sequence over 7 effect kinds (set, set!, defun, assoc!, append!, export, use-package) x fault. " +
 		"Depth 1: the COMPLETE fault space of every operation (no fault; ordinary host error and host panic at every host-call index; step budget at every n in 1..N; cancellation at every k in 1..N; physical height limit at every h in 1..H+1). " +
-		"Depth 2: from every distinct state reached (canonical state = list of cleanly completed effects + template and fault kind of the last operation) a second operation from a reduced alphabet under every entry point with boundary faults. A state/transition is non-trivial when the operation was faulted; distinct by (history, operation)")
+		"Depth 2: from every distinct state reached (canonical state = list of cleanly completed effects + template and fault kind of the last operation) a second operation from a reduced alphabet under every entry point with boundary faults. A state/transition is non-trivial when the operation was faulted; distinct by (history, operation). " +
+		"Evaluator-location family (loc.go): context (every kind of place a form can stand in: top-level forms, operator bodies, handlers, functions, macros, argument of a call, sources of nested load-string / load-bytes / load-file) x entry point (LoadString, LoadProgram, Eval, FunCall, LoadFile) x nest (a function-call form with the failing host call, or an intrinsically failing form, in every head / first / last argument position to a bounded depth, under every callee kind, also inside operators, function bodies, macro calls and nested loads standing in argument position) x the complete fault space; what every later entry point that does not re-stamp the location observes (LEnv.Source, frames and error locations under FunCall / FunCallContext / MacroCall / SpecialOpCall / EvalSExpr, the source context of a host-issued relative load-file) must equal what it observes after the BARE host call failed the same way in the same place")
 	r.Assume("an effect is confirmed when the host builtin (snap) that follows it returned normally; a failed run must be equivalent to the state after c or c+1 effects (the effect completed but its snap did not)")
 	r.Assume("equivalence is observed through the Go-side package table (watched names, exports, current package) plus the value, stderr and STEP COUNT of a fixed probe program (reads every watched name in both packages, calls the watched function, handler-bind, rethrow, rethrow outside a handler, a tail loop, a macro, in-package)")
+
+	if os.Getenv("C05_ONLY") == "loc" { // development switch: the evaluator-location family alone
+		runLoc(r)
+		return
+	}
 
 	// ---- depth 1
 	root := history{}
@@ -837,6 +901,9 @@ func run(r *core.Run) {
 		t := tasks2[len(tasks2)/3]
 		r.Sample(map[string]any{"history": t.h.Ops, "op": t.o, "src": t.o.src()})
 	}
+
+	// ---- evaluator-location family
+	runLoc(r)
 }
 
 func taskKey(t task) string {
